@@ -21,6 +21,7 @@ CFG = {
             "StateTransition.buyGas/refundGas/fee": "corr (tx cases: first debit = gas*price, last two credits sum to it) + theorem tx_conserves over Model.Tx (C06)",
             "StateDB.Finalise deletions": "corr (tx cases compare RawDump after Finalise)",
             "misc.ApplyHardFork4": "corr (blk cases at the HF4 height)",
+            "misc.ApplyHardFork5 (as written: a query per listed account, no effect)": "model fact hf5_is_noop + corr (blk cases at the HF5 height with funded DeallocListHF4 accounts: exact sums) + call-site inventory",
             "StateProcessor.Process + Finalize": "corr on sums (blk cases) + direct judgement",
             "no other balance mutator": "gen (go/ast inventory of every AddBalance/SubBalance/SetBalance/Suicide/CreateAccount mention outside core/state and of the balance writers inside it; sites_eq_alphabet, state_writers_eq)"},
     "assumptions": ["Go runtime, math/big and the cryptographic primitives are modelled, not verified (DESIGN.md 2.5)",
@@ -33,7 +34,7 @@ CFG = {
 META = {
     "technique": "Lean 4 proof (no finite word over the balance-changing primitives, under any snapshot/revert nesting, increases the total; fee machinery balanced; rewards exact) tied to the code by a call-site inventory, regenerated constants and differential correspondence",
     "text": "Theorems prim_trace_nonincreasing, prim_trace_exact_without_selfdestruct, tx_conserves, tx_supply_nonincreasing, reward_exact, "
-            "hf4_only_lowers, block_supply_bound, block_supply_exact_without_selfdestruct, vm_run_supply_nonincreasing, tx_supply_nonincreasing_over_vm, block_supply_bound_over_vm hold for every program (as a word over the primitives), "
+            "hf4_only_lowers, block_supply_bound, block_supply_exact_without_selfdestruct, vm_run_supply_nonincreasing, vm_run_is_word, tx_supply_nonincreasing_over_vm, block_supply_bound_over_vm, block_supply_exact_without_selfdestruct_over_vm, hf5_is_noop hold for every program (as a word over the primitives), "
             "every pre-state, every block; issuance_schedule/issuance_matches_probes/cutoff_is_maxMoney/sites_eq_alphabet are re-proved against what "
             "the compiled packages and the source tree say on every run; thousands of hostile-contract transactions and blocks are executed by the "
             "real EVM/Process/Finalize and the model must reproduce every balance (tx) and the exact sum (blocks without SELFDESTRUCT).",
